@@ -373,6 +373,15 @@ const DIGIT_WORDS: &[&str] = &[
 ];
 
 fn gen_digits(rng: &mut Rng) -> String {
+    if rng.chance(1, 40) {
+        // a long digit group (wider than any machine word or small fixed buffer)
+        let n = *rng.pick(&[17usize, 20, 33, 40, 65, 80]);
+        let mut s: String = (0..n).map(|_| if rng.chance(2, 3) { '0' } else { (b'0' + rng.below(10) as u8) as char }).collect();
+        if rng.chance(1, 2) {
+            s.replace_range(0..1, "5");
+        }
+        return s;
+    }
     if rng.chance(4, 5) {
         (*rng.pick(DIGIT_WORDS)).to_string()
     } else {
@@ -429,6 +438,14 @@ impl Check for C12 {
             for _ in 0..k {
                 let _ = model.apply(&burst);
                 ops.push(burst.clone());
+            }
+        }
+        // very rare: thousands of digits (limits far away from ordinary use)
+        if rng.chance(1, 3000) {
+            let chunk: String = (0..50).map(|i| (b'0' + ((i * 7 + 3) % 10) as u8) as char).collect();
+            for _ in 0..90 {
+                ops.push(Op::Push(chunk.clone()));
+                let _ = model.apply(&Op::Push(chunk.clone()));
             }
         }
         let n = n + ops.len();
